@@ -7,7 +7,7 @@ from values import *
 
 
 def check(ctx, prog, runtime='ActorRuntime'):
-    I1, a1, pm = lt.explore_process_message(prog, runtime, 1)
+    I1, a1, pm = lt.explore_process_message(prog, runtime, 1, loop_status=(2, 4))
     ctx.absorb(I1)
     b = prog.find_fn('%s::<TActor>::process_message' % runtime)
     ctx.encoded(prog, b)
